@@ -197,7 +197,7 @@ func feedDeclared(c *caseSpec, b *built, seg wsgen.Seg, p *vkit.Part) (res, clas
 	d, _ := strconv.ParseUint(lie.Decl, 10, 64)
 	via := "declared"
 	cfg := wsgen.Cfg{Client: !c.Server, L: L, Policy: c.Policy, Spy: true, RecordCtl: lie.Op >= wsgen.OpClose,
-		NoOnMessage: c.Handlers == "frame", OnDataFrame: c.Handlers != "msg"}
+		NoOnMessage: c.Handlers == "frame", OnDataFrame: c.Handlers != "msg", Build: c.Build}
 	ep := wsgen.NewEndpoint(cfg)
 	held := ""
 	r = ep.Feed(b.wire.Bytes, seg, func(call int, st websocket.VerifSeqState) string {
@@ -359,6 +359,10 @@ func declaredItems(thorough bool, item func(name string, f func()), p *vkit.Part
 									}
 									for _, form := range forms {
 										runDeclared(&caseSpec{Family: "declared", L: L, Server: server, Policy: pol, Handlers: h, Frags: declFrags(pos, d, present, form)}, p, opt)
+										if form == 0 && pol == 1 && present == 0 && (thorough || h == "msg") {
+											// a Conn created from a default Upgrader, then bound to the serving engine
+											runDeclared(&caseSpec{Family: "declared", L: L, Server: server, Policy: pol, Handlers: h, Build: "rebind", Frags: declFrags(pos, d, present, form)}, p, wsgen.SegOpt{AllSingleMax: -1, BytesMax: 4096})
+										}
 									}
 								}
 								for _, d := range topBit {
